@@ -16,7 +16,7 @@ import (
 // against sync.Map; no schedule dimension).
 
 func init() {
-	Register(&World{Name: "xsyncobj", Props: []string{"C18"}, Concurrent: true, MaxSteps: 6000, Run: xsyncobjWorld})
+	Register(&World{Name: "xsyncobj", Episodes: true, Props: []string{"C18"}, Concurrent: true, MaxSteps: 6000, Run: xsyncobjWorld})
 	ExpectedProbes["xsyncobj"] = []string{"watchable-value-before-first-set", "watchable-value-racing-first-set", "watchable-observer-woken", "future-wait-before-fill", "future-wait-after-fill", "future-waitcontext-cancelled", "lazy-concurrent-first-calls", "map-absent-key", "map-nil-interface-value", "porcupine-checked"}
 }
 
